@@ -163,7 +163,10 @@ def try_build(case):
                 out["font"] = list(write_font._inputs(cfg, [GlyphMapping(Path(p), None, (0x1F600,), "g_1f600")]))
         elif kind in ("masters-differ", "dup-basename"):
             with tempfile.TemporaryDirectory(prefix="verif_e2e_") as d:
-                for sub, files in (("a", ["1f600.svg", "1f601.svg"]), ("b", ["1f600.svg", "1f602.svg"] if kind == "masters-differ" else ["1f600.svg", "1f601.svg"])):
+                # masters whose source sets differ in any way: another name, a missing
+                # source, or an extra source (which would otherwise silently be dropped)
+                b_files = rng.choice([["1f600.svg", "1f602.svg"], ["1f600.svg"], ["1f600.svg", "1f601.svg", "1f602.svg"]])
+                for sub, files in (("a", ["1f600.svg", "1f601.svg"]), ("b", b_files if kind == "masters-differ" else ["1f600.svg", "1f601.svg"])):
                     os.makedirs(os.path.join(d, sub, "x"), exist_ok=True)
                     for fn in files:
                         open(os.path.join(d, sub, fn), "w").write("<svg/>")
@@ -589,6 +592,11 @@ def gen_bitmap_set(rng):
     n = rng.randint(1, 4)
     glyphs = [_simple_glyph(rng, (0x1F600 + 2 * i,)) for i in range(n)]
     pngs = [_png(rng.choice([res, res, min(250, res * 2), res // 2 + 1]), res, e2e._rgb(rng)) for _ in range(n)]
+    if n > 1 and rng.random() < 0.3:
+        # one strike has one ppem: a set of bitmaps of different pixel heights cannot be
+        # represented (it must be rejected, or every glyph must still get its own ppem)
+        k = rng.randrange(n)
+        pngs[k] = _png(rng.choice([res, res // 2 + 1]), rng.choice([res // 2, res + 8, min(250, res * 2)]), e2e._rgb(rng))
     metrics = rng.choice([dict(), dict(upem=1000, ascender=800, descender=-200, width=0), dict(upem=2048, ascender=1900, descender=-500, width=2400)])
     over_ = dict(metrics, color_format=fmt, output_file="o.ttf", bitmap_resolution=res, keep_glyph_names=True, _pngs=pngs)
     return {"glyphs": glyphs, "overrides": over_}
